@@ -47,7 +47,8 @@ impl Adapter for BulkheadAd {
             // the `small` preset exactly as shipped: 10 concurrent calls, reject when full
             return json!({"hm": rng.below(4), "max": 10, "wait": 0, "ctor": 2});
         }
-        let wait = *rng.pick(waits);
+        // 1000000 stands for Duration::MAX: a wait that never runs out (and whose deadline cannot be computed by adding)
+        let wait = if rng.pct(6) { 1000000 } else { *rng.pick(waits) };
         // ctor 3: a preset customised afterwards (needs an explicit wait); pre: overridden earlier settings
         let ctor = if wait >= 0 && rng.pct(20) { 3 } else { rng.below(2) };
         let pre = if wait >= 0 { rng.below(3) } else { 0 };
@@ -55,12 +56,22 @@ impl Adapter for BulkheadAd {
         let lazy = if self.variant == "lazy" { 1 } else { 0 };
         // rt (some late-polling runs): virtual time is coupled to the wall clock, which the crate reads too
         let rt = if lazy == 1 && rng.pct(12) { 1 } else { 0 };
-        json!({"rt": rt, "hm": rng.below(4), "max": *rng.pick(maxes), "wait": wait, "ctor": ctor, "ord": rng.below(6), "pre": pre, "sib": rng.below(2), "lazy": lazy})
+        // rdy = 1: the wrapped service's poll_ready fails now and then (a scripted sequence); the caller polls again until
+        // it is ready, as the contract demands, so only readiness polls the bulkhead makes of its own meet a failure
+        let rdy = if rng.pct(35) { 1 + rng.below(1000) } else { 0 };
+        json!({"rt": rt, "hm": rng.below(4), "max": *rng.pick(maxes), "wait": wait, "ctor": ctor, "ord": rng.below(6), "pre": pre, "sib": rng.below(2), "lazy": lazy, "rdy": rdy})
     }
     fn build(&mut self, cfg: &Value, sim: &mut Sim) {
         let max = cfg["max"].as_u64().unwrap() as usize;
         let wait = cfg["wait"].as_i64().unwrap();
         sim.real_sleep = cfg["rt"].as_u64().unwrap_or(0) == 1;
+        let rdy = cfg["rdy"].as_u64().unwrap_or(0);
+        if rdy > 0 {
+            let mut r = Rng::new(rdy);
+            let mut w = sim.w.lock().unwrap();
+            w.track_inst = true;
+            w.ready_script = (0..60).map(|_| if r.pct(30) { ReadyAns::Err(3) } else { ReadyAns::Ready }).collect();
+        }
         let cnt = Arc::new(Counters::default());
         self.cnt = cnt.clone();
         let (c1, c2, c3, c4) = (cnt.clone(), cnt.clone(), cnt.clone(), cnt.clone());
@@ -90,6 +101,8 @@ impl Adapter for BulkheadAd {
                         // nothing: the preset's own settings
                     } else if wait == 0 && ctor == 1 {
                         b = b.reject_when_full();
+                    } else if wait >= 1000000 {
+                        b = b.max_wait_duration(Duration::MAX);
                     } else if wait >= 0 {
                         b = b.max_wait_duration(Duration::from_millis(wait as u64));
                     }
@@ -142,7 +155,7 @@ impl Adapter for BulkheadAd {
     fn mk(&mut self, req: &Req) -> CallFut {
         // every caller uses its own clone of the one bulkhead
         let f = self.svc.as_mut().unwrap().with(|s| {
-            ready_unless_parked(s);
+            ready_until_ok(s);
             s.call(req.clone())
         });
         Box::pin(async move { map_res(f.await) })
